@@ -16,7 +16,7 @@ ASSUMPTIONS = [
     "state is observed through the public parent/children properties only",
 ]
 GATES = [
-    "mon.C01.deep_chain", "mon.C01.wide_node",
+    "mon.C01.deep_chain", "mon.C01.wide_node", "mon.C01.mixed_mixins",
     "mon.C01.invariant", "outcome.returned", "outcome.TreeError", "outcome.LoopError", "outcome.TypeError", "outcome.Injected",
     "outcome.RecursionError", "move.between_trees", "histories", "mon.C01.insitu_invariant", "insitu.tests_run", "mon.C01.assertion_switch", "C01.env_unset", "C01.env_1",
 ] + ["faulted." + k for k in (
